@@ -20,20 +20,12 @@ export VERIF_TIER=$TIER
 export VERIF_SEED=${VERIF_SEED:-1}
 [ -n "$REPLAY" ] && export VERIF_REPLAY=$REPLAY
 
-# property -> package, race?, watchdog seconds (quick/thorough)
-PKG=core; RACE=0; WQ=900; WT=7200
+# one package per property (compile isolation); race detector for the concurrent drivers
+PKG=$(echo "$ID" | tr 'A-Z' 'a-z'); RACE=0; WQ=900; WT=7200
 case "$ID" in
   C01|C02|C04|C05|C06|C09|C11|C24|C25|C26|C27|C33) RACE=1 ;;
 esac
-case "$ID" in
-  C34) PKG=lock ;;
-  C35|C36|C37) PKG=prob ;;
-  C38) PKG=limiter ;;
-  C39) PKG=aside ;;
-  C40) PKG=om ;;
-  C41|C42) PKG=compat ;;
-  C43) PKG=hook ;;
-esac
+if [ ! -d "$ROOT/harness/props/$PKG" ]; then echo "BROKEN property=$ID no driver package props/$PKG"; exit 2; fi
 [ "${VERIF_RACE:-}" = "0" ] && RACE=0
 [ "${VERIF_RACE:-}" = "1" ] && RACE=1
 
